@@ -344,7 +344,7 @@ where
                             let b = rd(by_ref);
                             let same = |x: &[f64]| {
                                 x.len() <= cx.vals.len()
-                                    && x.iter().zip(cx.vals.iter()).all(|(g, w)| g.to_bits() == w.to_bits() || g == w)
+                                    && x.iter().zip(cx.vals.iter()).all(|(g, w)| g.to_bits() == w.to_bits())
                             };
                             obs.ensure(same(&a), &cx.sig("check:parameters-changed"), || {
                                 format!("check() returned values {:?}, set were {:?}", a, cx.vals)
